@@ -6,7 +6,7 @@ import vlib
 from vlib import glist, gbool
 
 CODES = {
-    "C18": [1, 2, 3, 4, 5, 6, 7, 8],
+    "C18": [1, 2, 3, 4, 5, 6, 7, 8, 9],
     "C19": [11, 12, 13, 14, 15, 16, 17],
 }
 CODE_TEXT = {
@@ -18,6 +18,7 @@ CODE_TEXT = {
     6: "batch height is not the previous height + 1",
     7: "batched transaction is not the one currently held for its slot",
     8: "commit nonce moved without a commit that justifies it",
+    9: "batched a nonce below the nonce the ledger reports for the account",
     11: "GetTransaction(h) returned a transaction whose hash is not h",
     12: "a held transaction disappeared without commit / supersede / age eviction / restart",
     13: "a fresh transaction at or above the pending nonce was not taken",
@@ -27,11 +28,13 @@ CODE_TEXT = {
     17: "a ready transaction was not batched within ceil(ready/batchSize) generate+commit rounds",
 }
 # open finding id -> (model defect flag, failure codes it explains)
+# (a finding without a flag is behaviour the model reproduces unconditionally)
 FINDING_FLAGS = {
     "C19-xacct-index": ("d_xacct_index", [15, 17, 13]),
     "C19-commit-pending": ("d_commit_pending", [15, 17, 14, 1, 13]),
     "C19-stale-entries": ("d_stale_entries", [16]),
     "C19-lookup-hash": ("d_lookup_hash", [11]),
+    "C18-stale-commit-cache": (None, [9]),
 }
 FLAG_ORDER = ["d_xacct_index", "d_commit_pending", "d_stale_entries", "d_lookup_hash"]
 NILV = 2**64 - 1
@@ -67,7 +70,7 @@ def make_history(cfg, ledger, ops, tag=""):
     return dict(cfg=cfg, ledger=list(ledger), univ=universe(ops), ops=ops, tag=tag)
 
 
-def gen_structured(r, big=False):
+def gen_structured(r, big=False, with_ledger=False):
     k = r.choice([2, 2, 3, 3, 4])
     cfg = dict(batch=r.choice([1, 2, 2, 3, 4, 5, 8]), pool=r.choice([2, 3, 5, 8, 1000, 1000]),
                timed=r.choice([0, 0, 1]), height=r.choice([0, 1, 7, 100]))
@@ -139,15 +142,59 @@ def gen_structured(r, big=False):
             ops.append([6, r.choice([1, 1, 2, 3, 6])])
         elif x < 0.90:
             ops.append([3, clock + r.choice([0, 0, 0, -30]), r.choice([0, 3, 10, 25, 60, 1000])])
-        elif x < 0.94:
+        elif x < 0.93:
             ops.append([4, r.choice([0, 1, 5, 50, 100])])
-        elif x < 0.97:
+        elif x < 0.955:
             led = [r.choice([ledger[i], front[i], r.choice([0, 2, 5])]) for i in range(k)]
             front = list(led)
             ops.append([5, r.choice([0, 3, 9, 100]), led])
-        else:
+        elif x < 0.975:
             ops.append([6, r.choice([8, 12])])
-    return make_history(cfg, ledger, ops, "structured")
+        elif with_ledger:
+            # the chain moved on without this pool seeing the hashes: oracle advances, unknown hash committed
+            a = r.randrange(k)
+            ops.append([7, a, front[a] + r.choice([0, 1, 2])])
+            ops.append([2, [[a, front[a], 800000 + nid[0], clock]]])
+            nid[0] += 1
+        else:
+            ops.append([1])
+        # themes: short scripted runs that exercise specific bookkeeping
+        y = r.random()
+        if y < 0.06:
+            # several nonces of one account with timestamps in reverse nonce order, two generates before any commit
+            a = r.randrange(k)
+            m = r.choice([2, 3, 4])
+            run = [new_tx(a, front[a] + i, ts=clock + 3 * (m - i)) for i in range(m)]
+            front[a] += m
+            if r.random() < 0.5:
+                run = list(reversed(run))
+            ops.append([0, r.choice([0, 0, 1]), 1, clock, run])
+            ops.append([1]); ops.append([1])
+        elif y < 0.11:
+            # several batches in flight, then their commits out of order, then more work
+            for _ in range(r.choice([2, 3, 4])):
+                ops.append([1])
+            inflight = sorted(sent, key=lambda t: (t[0], t[1]))
+            chunks = [inflight[i:i + 2] for i in range(0, min(len(inflight), 8), 2)]
+            r.shuffle(chunks)
+            for ch in chunks[:3]:
+                ops.append([2, ch])
+            a = r.randrange(k)
+            ops.append([0, 1, 1, clock, [new_tx(a, front[a])]]); front[a] += 1
+            ops.append([1])
+        elif y < 0.16:
+            # parked, later promoted, then the age rule runs before anything is batched
+            a = r.randrange(k)
+            hi = new_tx(a, front[a] + 1)
+            ops.append([0, 0, 1, clock, [hi]])
+            clock += r.choice([5, 30])
+            lo = new_tx(a, front[a])
+            ops.append([0, 0, 1, clock, [lo]])
+            front[a] += 2
+            clock += r.choice([1, 10, 40])
+            ops.append([3, clock, r.choice([0, 3, 8, 20])])
+            ops.append([1])
+    return make_history(cfg, ledger, ops, "structured+ledger" if with_ledger else "structured")
 
 
 def gen_malformed(r):
@@ -270,6 +317,8 @@ def case_term(h, out):
             return "(CSetSeq %d)" % o[1]
         if c == 5:
             return "(CRestart %d %s)" % (o[1], glist(o[2]))
+        if c == 7:
+            return "(CSetLedger %d %d)" % (o[1], o[2])
         return "(CDrain %d)" % o[1]
 
     def g_obs(s):
@@ -428,7 +477,7 @@ def run(ctx, pid):
             return ctx.finish(rule="-")
         verdicts += vs
     reported = set()
-    opk = {0: "process", 1: "generate", 2: "commit", 3: "remove_old", 4: "set_seq", 5: "restart", 6: "drain"}
+    opk = {0: "process", 1: "generate", 2: "commit", 3: "remove_old", 4: "set_seq", 5: "restart", 6: "drain", 7: "set_ledger"}
     for h, o, (v, soft) in zip(hists, outs, verdicts):
         ctx.traces_validated += 1
         nt = nontrivial(h, o)
